@@ -476,21 +476,21 @@ def _alarm(signum, frame):
 
 _RETRIES = [3]
 _CLOCK = [None]             # when this process started on its chunk of inputs (set by _execute_chunk only)
-_BUDGET = 240.0
+_BUDGET = 45.0
 
 
-def guarded(fn, seconds=20.0):
+def guarded(fn, seconds=8.0):
     """returns (out, value): out in ok / RuntimeError / RecursionError / timeout / <other exception class>.
     A timeout is only believed after a second, much longer attempt (a loaded machine must not look like
     an unbounded loop); at most 3 such retries per process."""
     if _CLOCK[0] is not None and time.time() - _CLOCK[0] > _BUDGET:
-        # this process (50 inputs; about two seconds with the unchanged library) has used a hundred times its
+        # this process (50 inputs; about a second with the unchanged library) has used many times its
         # share: what is left is not executed but counted as not terminating, so that a check always ends
         return "timeout", None
     out, val = _guarded(fn, seconds)
     if out == "timeout" and _RETRIES[0] > 0:
         _RETRIES[0] -= 1
-        out, val = _guarded(fn, 90.0)
+        out, val = _guarded(fn, 40.0)
     return out, val
 
 
